@@ -163,7 +163,7 @@ theorem no_render_outOfFuel_or_panic (body : List Stmt) (chunks : List Chunk)
     (tl : List String) :
     renderChunks o ps chunks n g tl ≠ .error .outOfFuel ∧ ∀ w, renderChunks o ps chunks n g tl ≠ .error (.panic w) := by
   rcases render_total body chunks h o ps n g tl with ⟨ls, h1⟩ | ⟨tok, msg, h1, _⟩ <;>
-    (rw [h1]; exact ⟨fun e => by cases e, fun w e => by cases e⟩)
+    (rw [h1]; exact ⟨fun e => (by cases e), fun w e => (by cases e)⟩)
 
 /-! ### 2. the whole pipeline is total -/
 
@@ -221,12 +221,8 @@ theorem ast_token_pos (env : Env) (src : List Char) (p : Program)
   rcases hm with hm | hm
   · exact hm
   · have hne := (lexAll_ends_with_eof src).2
-    rw [hm]
-    cases hl : lexAll src with
-    | nil => exact absurd hl hne
-    | cons a r =>
-      rw [List.getLastD_cons]
-      exact List.getLast_mem _
+    rw [hm, List.getLastD_eq_getLast?, List.getLast?_eq_some_getLast hne]
+    exact List.getLast_mem hne
 
 /-- **Every error `compile` returns lies inside the source, start not after end**: lines between 1 and the
 number of lines of the source, start line not after end line, and (start line, start byte column) ≤
@@ -320,7 +316,7 @@ example :
   have h : compile {} { optimize := false } src = .parseError e := eq_of_errOf (by decide +kernel)
   exact ⟨h, compile_error_located {} _ src e h⟩
 
-/-- `emitProgram_total` on token lists (as the lexer produces them for
+/-! `emitProgram_total` on token lists (as the lexer produces them for
 `script S { if (flag(A) && !flag(B)) { a } S_1: b }`): the hypothesis holds (`parsed_guarantees`) and the second
 alternative — a label clash — is the one that occurs. -/
 section Example
